@@ -105,6 +105,7 @@ def check_operator_actions(ctx, g, d):
     isa = {'UnaryOperation': {'Operation', 'ASTNode'}, 'BinaryOperation': {'Operation', 'ASTNode'}, 'BetweenOperation': {'Operation', 'ASTNode'},
            'Identifier': {'ASTNode'}, 'Constant': {'ASTNode'}, 'NullConstant': {'Constant', 'ASTNode'}, 'Tuple': {'ASTNode'}, 'Select': {'ASTNode'}}
     n = 0
+    ast_files = tuple(sorted(f for f in ctx.src.py_files('mindsdb_sql/parser') if '/ast/' in f))
     for p in g.productions[1:]:
         k = prod_kind(p)
         if not k or p.name != 'expr' or p.func is None:
@@ -118,6 +119,9 @@ def check_operator_actions(ctx, g, d):
                 return Obj('Identifier', parts=[tag], alias=None, parentheses=False)
             if kind_ == 'constant':
                 return Obj('Constant', value=5, alias=None, parentheses=False)
+            if kind_ in ('comparison', 'comparison-parenthesised'):
+                return Obj('BinaryOperation', op='=', args=[Obj('Identifier', parts=[f'{tag}l'], alias=None, parentheses=False), Obj('Constant', value=1, alias=None, parentheses=False)],
+                           alias=None, parentheses=kind_ == 'comparison-parenthesised')
             if kind_ == 'tuple':
                 return Obj('Tuple', items=[Obj('Constant', value=1, alias=None, parentheses=False)], alias=None, parentheses=False)
             opk = 'UnaryOperation' if k[0] == 'un' else ('BetweenOperation' if k[0] == 'between' else 'BinaryOperation')
@@ -125,7 +129,7 @@ def check_operator_actions(ctx, g, d):
             return Obj(opk, op=optext.lower() if kind_ == 'same-lower' else optext.upper(), args=inner, alias=None, parentheses=kind_ == 'same-parenthesised')
         variants = [['column'] * len(opnd)]
         for i in range(len(opnd)):
-            for kind_ in ('same-lower', 'same-upper', 'same-parenthesised', 'constant', 'tuple'):
+            for kind_ in ('same-lower', 'same-upper', 'same-parenthesised', 'constant', 'tuple', 'comparison', 'comparison-parenthesised'):
                 v = ['column'] * len(opnd)
                 v[i] = kind_
                 variants.append(v)
@@ -138,7 +142,7 @@ def check_operator_actions(ctx, g, d):
                     oi += 1
                 else:
                     values.append(spelling(g.lexer, s_) or s_)
-            it = Interp.for_file(ctx.src, g.file, isa, {})
+            it = Interp.for_file(ctx.src, g.file, isa, {}, also=ast_files)
             label = f'{d}:[{p}]:operands={"/".join(v)}'
             n += 1
             try:
